@@ -5,6 +5,7 @@
    (match <hex pattern> <hex context> <hex name>)
    (mocks <unlimited> <f> ((fn line ttl called trig) ...))        every queue function for function f
    (succ <unlimited> <f> (f1 f2 ...))
+   (walk forked|inproc <tree>)   (walk-named <test id> <tree>)      tree in the syntax of the runner cases
    result: "<what> <code vector> | <model vector>" parts separated by " ; " *)
 open Model
 type string = Stdlib.String.t
@@ -53,4 +54,14 @@ let code_case (s : sexp) : string =
   | A "succ" :: A unl :: A f :: l :: [] ->
       let l = List.map (fun a -> nat_of_int (int_of_string (atom a))) (lst l) in
       pair "succ" (code_succ (z_of_string unl) l (nat_of_int (int_of_string f))) (model_succ (z_of_string unl) l (nat_of_int (int_of_string f)))
+  | A "walk" :: A mode :: tree :: [] ->
+      let n = H_runner.node_of tree in
+      (match mode with
+       | "forked" -> pair "walk" (code_walk false n) (model_walk false n)
+       | "inproc" -> pair "walk" (code_walk true n) (model_walk true n)
+       | _ -> failwith "walk: mode")
+  | A "walk-named" :: A k :: tree :: [] ->
+      let n = H_runner.node_of tree in
+      let k = nat_of_int (int_of_string k) in
+      pair "walk-named" (code_walk_named k n) (model_walk_named k n)
   | _ -> failwith "code: unknown case"
